@@ -18,9 +18,17 @@ Definition first_char_index (cs : charset) (s : str) : res nat :=
   | c :: _ => match find_char_index cs c with Some i => Ok i | None => Err end
   end.
 
+(* the marker that ends the set inside `FROM (.., ...)` sits on its last element *)
+Definition elem_marked (e : elem) : bool :=
+  match e with Single _ x => x | Range _ _ x => x | _ => false end.
+Fixpoint ends_with_marker (s : eos) : bool :=
+  match s with El e => elem_marked e | SetOp _ _ r => ends_with_marker r end.
+
 Fixpoint from_elem (cs : charset) (e : elem) : res (option (list subset)) :=
   match e with
-  | Alpha inner => bind (from_alpha_inner cs inner) (fun l => Ok (Some l))
+  | Alpha inner =>
+      if ends_with_marker inner then Ok None      (* X.691 10.3.10: an extensible permitted alphabet is not PER-visible *)
+      else bind (from_alpha_inner cs inner) (fun l => Ok (Some l))
   | Single (VStr s) false =>
       if forallb (fun c => match find_char_index cs c with Some _ => true | None => false end) s
       then Ok (Some (map SSingle s)) else Err
